@@ -44,6 +44,10 @@ func Simple(typ string, sec int64, seq int, ses, pid, res string) Group {
 	default:
 		body = fmt.Sprintf("pid=%s uid=0 auid=9999 ses=%s subj=system_u:system_r:sshd_t:s0-s0:c0.c1023 msg='op=PAM:session_open grantors=pam_unix acct=\"someone\" exe=\"/usr/sbin/sshd\" hostname=10.0.0.1 addr=10.0.0.1 terminal=ssh res=%s'", pid, ses, res)
 	}
+	if res == "" {
+		// a record without any result field (the audit result is then unknown, which is not success)
+		body = strings.Replace(strings.Replace(body, " res='", "'", 1), " res=", "", 1)
+	}
 	ok := res == "success" || res == "1" || res == "yes"
 	return Group{Name: typ, Seq: seq, Sec: sec, Session: ses, PID: pid, Result: res, Success: ok, Kind: typ,
 		Recs: []Rec{{Line: hdr(typ, sec, seq) + body, Type: typ}}}
@@ -129,6 +133,9 @@ func Groups(thorough bool) []Group {
 			ress := []string{"success", "failed"}
 			if typ == "LOGIN" {
 				ress = []string{"1", "0"}
+			}
+			if typ == "USER_START" || typ == "USER_CMD" {
+				ress = append(ress, "") // no result field at all
 			}
 			for _, res := range ress {
 				out = append(out, Simple(typ, 1700000000+int64(seq%50), next(), ses, "4242", res))
